@@ -21,8 +21,8 @@ CLAIMS = {
  'C03': dict(cat='proof', tech='Coq proof (scanner inversion by induction over the authority text) with model/implementation correspondence check',
    text='Theorems C03_uri_authority / C03_iri_authority: every string of the RFC authority language is [userinfo "@"] host [":" port] with each part in its own language, and the one-pass decomposition and the three individual scanners (user_info, host, port -- incl. find_port\'s labelled-continue loop) return exactly the ranges of those parts; C03_parts, C03_find_host, C03_find_user_info, C03_find_port at any offset of an enclosing buffer. Complete chain: grammar -> parts (factorisation by reflection) -> delimiter well-formedness -> scanners.',
    note=TB),
- 'C04': dict(cat='proof', tech='Coq proof (induction over setter sequences on top of the splice refinement) + model/implementation correspondence over random mutator sequences',
-   text="Theorems C04_setter_sequences_partial and C04_mixed_sequences_partial: every finite sequence mixing the five setters, path push, path clear and whole histories of set_userinfo/set_host/set_port edits through one authority handle, with valid arguments, from any well-formed reference (whose authority is a well-formed [userinfo@]host[:port]) runs without panic in the index-level model (bounds-checked indices, checked subtraction) and ends in compose p' with p' again well-formed; C04_setters_keep_validity_URI / _IRI: AT THE LEVEL OF THE RFC GRAMMAR, from any string of the (U/I)RI-reference language any finite sequence of the five setters with arguments valid for their component types (or removals) returns a string of the same language (38 regex-inclusion certificates for the disambiguated shapes, checked by the verified bisimulation checker); with C01 the buffer re-parses as the same type after every call; C04_splice_total. Not covered by a theorem: pop, symbolic_push/append, normalize, resolve -- these are executed on the implementation (dev profile, catch_unwind, re-validation after EVERY call) and on the extracted model: partial.",
+ 'C04': dict(cat='proof', tech='Coq proof (induction over sequences of ALL safe mutators on top of the splice / handle refinements) + model/implementation correspondence over random mutator sequences',
+   text="Theorem C04_mixed_sequences_partial: every finite sequence mixing the five setters, path push / pop / clear / normalize / symbolic_push / symbolic_append through a handle on the reference, in-place resolution against any well-formed base with a scheme (all five branches), and whole histories of set_userinfo/set_host/set_port through one authority handle, with valid arguments, from any well-formed reference runs without panic in the index-level model (bounds-checked indices, checked subtraction) and ends in compose p' with p' again well-formed (delimiter level: every accessor reads the components back, C02); C04_setter_sequences_partial; C04_setters_keep_validity_URI / _IRI: AT THE LEVEL OF THE RFC GRAMMAR any setter sequence with component-valid arguments maps the (U/I)RI-reference language into itself (38 regex-inclusion certificates checked by the verified bisimulation checker), so with C01 the buffer re-parses as the same type after every call; C04_splice_total. 'partial': grammar-level validity is proved for the five setters only (for the path/authority handles and resolve the proved invariant is the delimiter-level well-formedness), and the owned PathBuf/AuthorityBuf types outside a reference are covered by model + correspondence. The check executes random sequences on the implementation (dev profile, catch_unwind, re-validation after EVERY call, several edits through one authority handle) and on the extracted model.",
    note=TB),
  'C05': dict(cat='proof', tech='Coq proof (scanner value lemmas + splice refinement replace_spec) + model/implementation correspondence with a relational oracle',
    text='Theorems C05_set_scheme/_authority/_path/_query/_fragment: on compose p the L0 model of each setter returns compose p\' with exactly that component replaced, all others '
@@ -33,20 +33,15 @@ CLAIMS = {
    text='Theorems C11_view, C11_set_userinfo, C11_set_host, C11_set_port (each editor: no panic, the handle invariant is re-established for the authority with exactly that sub-component replaced, before/after untouched; all branches: replace, insert with delimiter, remove with delimiter, no-op) and C11_history: ANY finite history of calls through one handle with delimiter-valid arguments keeps the invariant, so the handle always views exactly the current authority. The model carries the `end` arithmetic of the code and is compared with the implementation after every call.',
    note=TB),
  'C12': dict(cat='proof', tech='Coq proof (induction over an arbitrary next/next_back script) + model/implementation correspondence with the /-split oracle',
-   text="Theorems C12_interleave / C12_interleave_at (for every non-empty path and EVERY finite script of next/next_back calls the iterator model never panics and yields segment k from the front, n-m-1 from the back, None after the cursors meet), C12_segments_are_the_split (forward iteration of any path free of '?' '#' = the '/'-split of the text), C12_join_split. Derived queries (first, last, file_name, directory, parent, counts) are modelled (PathQ.v) and compared with the implementation and an independent split oracle.",
+   text='Theorems C12_interleave / C12_interleave_at (for every non-empty path and EVERY finite script of next/next_back calls the iterator model never panics and yields segment k from the front, n-m-1 from the back, None after the cursors meet), C12_segments_are_the_split (forward iteration of any path free of \'?\' \'#\' = the \'/\'-split of the text), C12_join_split. Derived queries: C12_last (last() = the last piece of the split, no panic), C12_parent / C12_parent_or_empty (the text up to the last \'/\', "/" for "/x", the library\'s "/./" for "//x", None / "" when there is nothing to cut); first, file_name, directory and the counts are modelled (PathQ.v) and compared with the implementation and an independent split oracle.',
    note=TB),
  'C20': dict(cat='proof', tech='Coq proof of range ordering/containment over the scanner model; allocation counting and pointer-range observation in the harness',
    text='Theorems C20_reference_ranges / C20_authority_ranges: the ranges returned by the decomposition of any well-formed reference/authority are well-formed, ordered, disjoint and inside '
         'the input. That results are sub-slices (pointer identity) and that 0 heap allocations happen is OBSERVED by the harness (counting global allocator, inputs to 64 kB): a '
         'value-level Gallina model has no heap, so that half is test-level (partial).',
    note=TB + 'Allocation behaviour is runtime behaviour the model cannot exhibit.'),
- 'C06': dict(cat='proof', tech='Coq refinement proof of four of the five branches of resolve to an RFC 5.2.2 spec + independent RFC oracle on every implementation output + model correspondence',
-   text='Spec coq/Rfc.v (rfc_target, rds, merge). Four of the five branches of RFC 3986 5.2.2 are proved for ALL well-formed base and reference: C06_empty_path_branch_partial (no scheme, '
-        'no authority, empty path: component selection and query inheritance) and C06_no_merge_branches_exact / C06_no_merge_branches_partial (reference with a scheme, an authority or an '
-        'absolute path: the index-level model -- set_scheme, set_authority, in-place normalize through the path handle, closing push -- returns, without panic, compose of the RFC target '
-        'whose path is the text-level function rds_impl, and rds_impl = 5.2.4 under the exact condition rds_exact, implied by "no empty segment except the last" (C06_rds_exact_simple); '
-        'C06_K_R2_witness shows the condition cannot be dropped (recorded class K_R2)); C06_rds_normal / C06_rds_plain on the 5.2.4 walk. The merge branch is executed on the implementation '
-        'and the extracted model (all three entry points, both families) and every output of every branch is judged by an independent transcription of RFC 3986 5.2 (tools/spec.py): partial.',
+ 'C06': dict(cat='proof', tech='Coq refinement proof of all five branches of resolve to an RFC 3986 5.2.2 spec (index-level model -> text-level functions -> RFC) + independent RFC oracle on every implementation output + model correspondence',
+   text="Spec coq/Rfc.v (rfc_target = 5.2.2, merge = 5.2.3, rds = 5.2.4). Theorem C06_resolution_is_rfc_partial: for EVERY well-formed base with a scheme and EVERY well-formed reference, if no segment other than the last is empty in the reference path and (when paths are merged) in the base path, the index-level model of resolve (bounds-checked splices, handle offsets, set_scheme/set_authority/set_path, in-place normalize, parent, symbolic_append, closing push) returns without panic exactly compose(rfc_target base ref). Per branch: C06_empty_path_branch_partial, C06_no_merge_branches_exact/_partial (exact text-level result rds_impl for ALL inputs; = 5.2.4 under the exact condition rds_exact), C06_merge_branch_exact/_partial (exact result merge_impl for ALL inputs; = 5.2.3+5.2.4 under the no-inner-empty-segment condition, by a representation invariant tying the accumulated text to the stack of the specification walk), C06_resolve_total (all five branches: no panic, result well-formed), C06_K_R2_witness (the excluded inputs are the recorded class K_R2, where the code really departs from the RFC), C06_rds_normal/_plain. 'partial' = the exclusion. Every output of every branch on the implementation is also judged by an independent transcription of RFC 3986 5.2 (tools/spec.py); the known class is exactly the complement of the theorem's hypotheses and inside it the implementation must show the recorded behaviour (the model).",
    note=TB + 'Oracle tools/spec.py is an independent reading of the RFC; interpretation I1/I8 (DESIGN section 8).'),
  'C07': dict(cat='proof', tech='Coq proof: the derive-style comparison model factors through a canonical form built from total-order combinators; decode totality by reflection; correspondence check',
    text='Theorems C07_eq_is_canon_equality, C07_reflexive/_symmetric/_transitive (== on references is equality of canonical forms (scheme literal, decoded user info/host, literal '
@@ -59,10 +54,10 @@ CLAIMS = {
         'through every Borrow impl between library types.',
    note=TB + 'derive(Ord/Hash) semantics of std (field order, Option discriminant as isize, [u8] length prefix) are modelled as observed.'),
  'C09': dict(cat='proof', tech='Coq proof (stack walk of the model = specification walk; normal form; idempotence) + correspondence with an RFC 5.2.4 oracle',
-   text="Theorems C09_normalized_segments_of_text (for every path free of '?' and '#' the normalized-segment iterator of the model yields exactly `norm` -- drop '.', '..' pops / is kept when relative and nothing is left / is dropped at the root -- of the '/'-split of the text), C09_normalized_segments, C09_normal_form, C09_idempotent, C09_render_segs. normalized() and in-place normalize() (stand-alone and embedded, > 16 segments / > 512 bytes, twice through one handle) are modelled (PathMut.v) and judged by the rendering oracle: partial. Known findings K_G11, K_shield_left.",
+   text="Theorems C09_normalized_segments_of_text (for every path free of '?' and '#' the normalized-segment iterator of the model yields exactly `norm` -- drop '.', '..' pops / is kept when relative and nothing is left / is dropped at the root -- of the '/'-split of the text), C09_normalized_segments, C09_normal_form, C09_idempotent, C09_render_segs. IN-PLACE normalize(): C09_normalize_in_place (index-level handle: no panic, bytes before and after the path untouched, offsets coherent, the view becomes normalize1 v), C09_normalize_text (normalize1 v = rendering, with v's absoluteness, of the specification walk on the '/'-split, preceded by one '.' segment exactly when the code writes its './' shield), C09_normalize_keeps_absoluteness. The copying normalized() (a fold of symbolic pushes; known findings there) is modelled (PathMut.v) and judged by the rendering oracle together with all entry points (stand-alone and embedded, > 16 segments / > 512 bytes, twice through one handle): partial. Known findings K_G11, K_shield_left.",
    note=TB + 'Interpretations I4, I8.'),
  'C10': dict(cat='proof', tech='Coq proof of the push law for all byte strings + L0 handle model correspondence + list-semantics oracle per edit',
-   text="Theorems C10_push_law (push appends exactly the pushed segment, for EVERY byte string and context, all five branches), C10_push_handle (the same for the INDEX-LEVEL handle that is compared with the implementation: no panic, invariant buffer = before ++ view ++ after re-established, before/after untouched), C10_clear_handle, C10_clear_no_segments, C10_handle_sequences (any sequence of push/pop/clear through ONE handle performs the list-level edits of the view with coherent offsets and untouched surroundings, i.e. composes like fresh handles). pop's list law, symbolic_push/append and normalize are modelled and compared after every edit with list-semantics laws and frame checks: partial. Known findings K_pop_dslash, K_dot_only, K_G11.",
+   text='Theorems C10_push_law (push appends exactly the pushed segment, for EVERY byte string and context, all five branches), C10_push_handle (the same for the INDEX-LEVEL handle that is compared with the implementation: no panic, invariant buffer = before ++ view ++ after re-established, before/after untouched), C10_clear_handle, C10_clear_no_segments, C10_handle_sequences (any sequence of push/pop/clear through ONE handle performs the list-level edits of the view with coherent offsets and untouched surroundings, i.e. composes like fresh handles). POP: C10_pop_total (on every path free of \'?\' and \'#\' the backward scan never leaves the path; pop = pop_text), C10_pop_law_partial (a non-empty path whose last segment is not \'..\' loses exactly that segment and keeps its absoluteness; the excluded shape "//x" is the recorded finding, C10_K_pop_dslash_witness), C10_pop_pushes_dotdot, C10_pop_handle / C10_symbolic_push_handle / C10_symbolic_append_handle (index-level handle: no panic, frame untouched, path stays well-formed in its context, text-level result sym_push1 / sym_append1). The list-level reading of the symbolic operations (what \'..\' removes when the path is a lone \'.\' etc.) is compared after every edit with list-semantics laws and frame checks: partial. Known findings K_pop_dslash, K_dot_only, K_G11.',
    note=TB + 'Interpretations I2, I9.'),
  'C13': dict(cat='proof', tech='Coq proof by reflection: inclusion certificates between the GENERATED validators (regenerated every run) and between the RFC grammars; conversions and cross-family agreement by differential testing',
    text='11 theorems C13_<a>_in_<b> on the DFAs translated from the current tree (every URI type is accepted by its IRI counterpart; Uri in UriRef; Iri in IriRef), plus C13_uri_is_iri, '
